@@ -15,6 +15,12 @@ VARIABLES l, ag, skip
 
 Init == RegInit /\ l = 1 /\ ag = InitAgOver({}, None) /\ skip = TRUE
 
+\* C13 judges the Agent on its own (requirement); inside a client run the same comparison is an expectation about
+\* the Agent part of the client model (VERIF_AGENT_LAYER = "I": a mismatch is model drift, not a violation of the
+\* client property being checked)
+AsExpectation == "VERIF_AGENT_LAYER" \in DOMAIN IOEnv /\ IOEnv.VERIF_AGENT_LAYER = "I"
+Judge(c, n, why, detail) == IF AsExpectation THEN Expect(c, n, why, detail) ELSE Require(c, n, why, detail)
+
 Outcome(e) ==
   CASE e.op = "start"      -> StartF(ag, e.id, e.d)
     [] e.op = "stop"       -> StopF(ag, e.id, "stopped")
@@ -32,7 +38,7 @@ Call(e) ==
       ok  == /\ o.res = e.res
              /\ o.evs = obs
              /\ Cardinality(obs) = Len(e.evs)
-  IN /\ Require(ok, l, "agent-step",
+  IN /\ Judge(ok, l, "agent-step",
                 [op |-> e.op, want_res |-> o.res, got_res |-> e.res,
                  want_events |-> Cardinality(o.evs), got_events |-> Len(e.evs),
                  want_evs |-> SetToSeq(o.evs)])
